@@ -148,10 +148,10 @@ Lemma becke_partition_euclid_lemma k rad atoms p : NoDup atoms -> atoms <> [] ->
      forall B, (B < length atoms)%nat -> B <> A -> becke_geom k rad atoms (nth A atoms origin) B = 0).
 Proof.
   intros Hnd Hne. assert (HM : (0 < length atoms)%nat) by (destruct atoms; [congruence | cbn; lia]).
-  pose proof (euclid_wf_lemma atoms p Hnd) as W. repeat split.
-  - apply weight_range_lemma; assumption.
-  - apply weight_range_lemma; assumption.
-  - apply sum_to_one_lemma; assumption.
-  - apply (nucleus_values_lemma k (length atoms) rad (geom_R atoms) _ A H (euclid_nucleus_lemma atoms A Hnd H)).
-  - apply (nucleus_values_lemma k (length atoms) rad (geom_R atoms) _ A H (euclid_nucleus_lemma atoms A Hnd H)).
+  pose proof (euclid_wf_lemma atoms p Hnd) as W. split; [|split].
+  - intros A HA. exact (weight_range_lemma k (length atoms) rad (geom_R atoms) (geom_d atoms p) A HM W HA).
+  - exact (sum_to_one_lemma k (length atoms) rad (geom_R atoms) (geom_d atoms p) HM W).
+  - intros A HA.
+    exact (nucleus_values_lemma k (length atoms) rad (geom_R atoms) (geom_d atoms (nth A atoms origin)) A HA
+             (euclid_nucleus_lemma atoms A Hnd HA)).
 Qed.
